@@ -6,9 +6,16 @@
    the filesystem made the C do), hence for every archive.  The ledger is tied to
    the C on every run: in lock step with Reader.v it predicts the allocator's
    live block count after every API call and at exit (check C20 compares it with
-   the wrapped allocator of the real library).  Allocation failure is outside the
-   ledger and decided by failure injection on the C alone. *)
+   the wrapped allocator of the real library).  The second half of the property (any single
+   allocation failure) is stated over the ledger with failing requests ReaderMemFail.v
+   (16 allocation sites in the C's order, each followed along the C's error path; tied to
+   the C on every run: with request k failing the ledger predicts every result, live-block
+   count and request count after every call and the balance at exit), proofs in
+   P_ReaderMemFail.v; wf_decisions restricts the per-header allocation steps to the orders
+   the parser can produce (exercised on every parse of the correspondence runs; its
+   derivation from the parser model is not proved). *)
 From Lhasa Require Import Base Reader ReaderMem P_ReaderMem.
+From Lhasa Require ReaderMemFail P_ReaderMemFail.
 Local Open Scope N_scope.
 
 (* within the protocol (per entry: a check or an extract only as the first decode
@@ -40,7 +47,25 @@ Proof. exact protocol_strict_protocol. Qed.
 Theorem abandoning_is_covered : forall l k, protocol l = true -> protocol (firstn k l) = true.
 Proof. intros l k H. apply (proto_prefix true (firstn k l) (skipn k l)). rewrite firstn_skipn. exact H. Qed.
 
+(* ---- any single failing allocation request (index k) ----
+   C20_fail_released: for every k, protocol-respecting history and decision sequence the
+     run returns, no pointer to a live decoder is overwritten, no block is freed twice or
+     used after release (such a step is a ledger fault -- cf. C20_fail_mutation_would_fault:
+     freeing the old file name before allocating the new one ends in a fault), and after
+     lha_reader_free and the stream's free the ledger is empty;
+   C20_fail_reported: the call in which request k falls returns a failure value (next_file:
+     NULL or a re-presented entry; read: 0 bytes; check / extract: 0). *)
+Theorem C20_fail_released : ltac:(let t := type of P_ReaderMemFail.C20_fail_released in exact t).
+Proof. exact P_ReaderMemFail.C20_fail_released. Qed.
+Theorem C20_fail_reported : ltac:(let t := type of P_ReaderMemFail.C20_fail_reported in exact t).
+Proof. exact P_ReaderMemFail.C20_fail_reported. Qed.
+Theorem C20_fail_mutation_would_fault : ltac:(let t := type of P_ReaderMemFail.C20_fail_mutation_would_fault in exact t).
+Proof. exact P_ReaderMemFail.C20_fail_mutation_would_fault. Qed.
+
 Print Assumptions ledger_never_faults.
 Print Assumptions everything_released.
 Print Assumptions property_protocol_is_covered.
 Print Assumptions abandoning_is_covered.
+Print Assumptions C20_fail_released.
+Print Assumptions C20_fail_reported.
+Print Assumptions C20_fail_mutation_would_fault.
